@@ -233,7 +233,7 @@ def _cli_clauses(data, text, out, viols, rejected=None, full=True):
             rc, after = obs[mode]
             if after != data:
                 viols.append(dict(key=f"reject:file-rewritten:{rejected}" + ("" if mode == "inplace" else f":--{mode}"), clause="rejected input is never rewritten", observed={"cli_mode": mode, "exit": rc, "bytes_after": _show(after)}, expected="file bytes unchanged"))
-            elif rc != 123:
+            elif isinstance(rc, int) and rc != 123:  # 123, or an exception out of main(), is an error report
                 viols.append(dict(key=f"reject:exit-status:{rejected}:{mode}:{rc}", clause="rejected input is reported as an error", observed={"cli_mode": mode, "exit": rc}, expected="exit status 123 (error)"))
         return
     changed = out != text
@@ -1053,6 +1053,19 @@ _EXTRA = {}
 _EXTRA_SHARDS = 16
 
 
+def _eval_bytes(data: bytes):
+    """A file that is not valid UTF-8 cannot be decoded, let alone tokenised: the rejection clause
+    through the real CLI (bytes untouched in every mode, an error reported)."""
+    flags, viols = {"undecodable": 1}, []
+    try:
+        data.decode("utf-8")
+        return {"decodable": 1}, viols  # not a member of this family
+    except UnicodeDecodeError:
+        pass
+    _cli_clauses(data, None, None, viols, rejected="undecodable-utf8", full=True)
+    return flags, viols
+
+
 def _do_extra(item):
     """One shard of the file-path (non-ASCII) family or of the indentation family."""
     fam, shard, nshards = item
@@ -1060,7 +1073,12 @@ def _do_extra(item):
     for idx, src in enumerate(_EXTRA[fam]):
         if idx % nshards != shard:
             continue
-        flags, viols = evaluate(src, file_path=True, indent_ref=(fam == "indent"))
+        if fam == "badbytes":
+            flags, viols = _eval_bytes(src)
+            raw, src = src, src.decode("utf-8", "backslashreplace")
+        else:
+            raw = None
+            flags, viols = evaluate(src, file_path=True, indent_ref=(fam == "indent"))
         stats["evaluations"] = stats.get("evaluations", 0) + 1
         stats["distinct"] = stats.get("distinct", 0) + 1
         stats[fam + "_cases"] = stats.get(fam + "_cases", 0) + 1
@@ -1068,7 +1086,7 @@ def _do_extra(item):
             stats[f] = stats.get(f, 0) + 1
         for v in viols:
             counts[v["key"]] = counts.get(v["key"], 0) + 1
-            v = dict(v, case={"family": fam, "devs": [], "src": src})
+            v = dict(v, case={"family": fam, "devs": [], "src": src, **({"bytes_hex": raw.hex()} if raw is not None else {})})
             r = _case_rank(v["case"])
             if v["key"] not in best or r < best[v["key"]][0]:
                 best[v["key"]] = (r, v)
@@ -1089,6 +1107,7 @@ def _configure(ctx):
     _NPARTS = 8 if ctx.thorough else 1
     _EXTRA["uni"] = space.uni_sources()
     _EXTRA["indent"] = space.indent_sources(ctx.thorough)
+    _EXTRA["badbytes"] = space.badbyte_sources()
 
 
 def run(ctx):
@@ -1101,7 +1120,7 @@ def run(ctx):
         nparts = _NPARTS if _FORMS[fi][1] else 1
         items += [(fi, p, nparts) for p in range(nparts)]
     ctx.log(f"{len(_FORMS)} forms ({sum(1 for f in _FORMS if f[1])} core at k={_KCORE}, rest at k={_K}); {len(items)} work items")
-    items += [(fam, sh, _EXTRA_SHARDS) for fam in ("uni", "indent") for sh in range(_EXTRA_SHARDS)]
+    items += [(fam, sh, _EXTRA_SHARDS) for fam in ("uni", "indent", "badbytes") for sh in range(_EXTRA_SHARDS)]
     res = common.pmap(_do_item, items, ctx.jobs, chunk=1, init=_init_worker, seed=ctx.seed)
     stats = {}
     counts = {}
@@ -1140,7 +1159,8 @@ def run(ctx):
             f"k={_KCORE} for the core forms (pairs over the reduced alphabet); plus every proper prefix of each core form's canonical text (tokenisation clause); "
             f"plus {len(_EXTRA['uni'])} non-ASCII sources ({len(space.UNI_LINES)+1} pre x {len(space.UNI_BODIES)} bodies x {len(space.UNI_LINES)+1} post lines with 2/3/4-byte characters) and every "
             f"canonical / CRLF / file-ending / prefix case through the real CLI on a real file in --check, --diff, in-place and in-place-again mode; "
-            f"plus {len(_EXTRA['indent'])} indentation sequences (3..5 lines over columns 0 2 4 8 and tab) judged against CPython's tokenizer. "
+            f"plus {len(_EXTRA['indent'])} indentation sequences (3..5 lines over columns 0 2 4 8 and tab) judged against CPython's tokenizer; "
+            f"plus {len(_EXTRA['badbytes'])} undecodable files ({len(space.BAD_BYTES)} invalid UTF-8 sequences x {len(space.BAD_PLACES)} places x {len(space.BAD_BODIES)} bodies, before / after) through the CLI's rejection clause. "
             "non-trivial = distinct program texts that xonsh's parser accepted, i.e. that reached the tree comparison"
         ),
         exhaustive=not stats.get("skipped_after_hangs", 0),
@@ -1159,6 +1179,7 @@ def run(ctx):
         with_comments=stats.get("has_comment", 0),
         through_cli_file=stats.get("cli", 0),
         nonascii_file_path_cases=stats.get("uni_cases", 0),
+        undecodable_file_cases=stats.get("badbytes_cases", 0),
         indentation_sequence_cases=stats.get("indent_cases", 0),
         indentation_cases_refused_by_cpython_reference=stats.get("rejected_by_indent_reference", 0),
         indentation_cases_where_xonsh_tokenizer_disagrees_with_reference=stats.get("tokenizer_disagrees_with_indent_reference", 0),
@@ -1184,6 +1205,15 @@ def replay(rec):
     _init_worker()
     case = rec["case"]
     src = case["src"]
+    if "bytes_hex" in case:
+        data = bytes.fromhex(case["bytes_hex"])
+        flags, viols = _eval_bytes(data)
+        print("file bytes:", data)
+        for v in viols:
+            print("violation key:", v["key"], "| observed:", common.jdump(v["observed"]), "| expected:", v["expected"])
+        if not viols:
+            print("no clause violated")
+        return 1 if any(v["key"] == rec["key"] for v in viols) else 0
     if "form" in case and "cut" not in case:
         lines = space.parse_form(case["form"])
         again = space.render(lines, dict(space.devs_from_json(case["devs"])))
